@@ -134,6 +134,68 @@ fn c01_missing_changes_kernel() {
     core::mem::forget(wp);
 }
 
+/// Reader GAP step on a stand-alone writer proxy: GAP(gapStart = g, gapList.base = b, empty bitmap -
+/// the only form dust-dds writers emit) processed by the statements of handle_gap_submessage.
+/// Oracle from the statement: a sequence number may become available (<= available_changes_max) only
+/// if every number between the old maximum and it is irrelevant, i.e. covered by the GAP.
+fn gap_step(contiguous: bool) -> (i64, i64, i64) {
+    let mut wp = s::new_proxy(ReliabilityKind::Reliable);
+    let first: i64 = kani::any();
+    let highest: i64 = kani::any();
+    kani::assume(first >= 1 && highest >= 0 && first <= 1000 && highest <= 1000);
+    wp.lost_changes_update(first);
+    wp.irrelevant_change_set(highest);
+    let old_max = wp.available_changes_max();
+    let g: i64 = kani::any();
+    let b: i64 = kani::any();
+    kani::assume(g >= 1 && g <= 1003 && b >= g && b - g <= 3);
+    if contiguous {
+        kani::assume(g <= old_max + 1);
+    } else {
+        kani::assume(g > old_max + 1 && b > g);
+    }
+    let gap = GapSubmessage::new(s::R_ID, s::W_ID, g, SequenceNumberSet::new(b, []));
+    s::glue_gap_proxy(&mut wp, &gap);
+    let new_max = wp.available_changes_max();
+    assert!(new_max >= old_max, "C01: a GAP never makes available changes unavailable");
+    if g <= old_max + 1 {
+        assert!(new_max == core::cmp::max(old_max, b - 1), "C01: a GAP adjacent to the available prefix extends it to the end of the gap");
+    } else {
+        assert!(new_max == old_max, "C01: a GAP that starts beyond the next expected change must not skip the changes before it (they are still missing)");
+    }
+    core::mem::forget(wp);
+    core::mem::forget(gap);
+    (old_max, g, b)
+}
+
+// @check props=C01 tier=quick
+// @desc Reader GAP step, GAP adjacent to or overlapping the received prefix (gapStart <= available_changes_max+1): after the statements of handle_gap_submessage, available_changes_max is max(old, gapList.base-1) - the irrelevant range is skipped, nothing received is lost.
+// @bounds proxy state symbolic with sequence numbers <= 1000, GAP range of 0..=3 sequence numbers, empty bitmap; unwind 6
+// @assume glue statements of handle_gap_submessage replicated by support_rtps::glue_gap_proxy (source guard)
+// @assume sibling of KF-C01-2: gapStart <= available_changes_max + 1
+// @enc rtps::writer_proxy::RtpsWriterProxy::irrelevant_change_set
+// @enc rtps::writer_proxy::RtpsWriterProxy::available_changes_max
+#[kani::proof]
+#[kani::unwind(6)]
+fn c01_reader_gap_step__rest() {
+    let (old_max, g, b) = gap_step(true);
+    kani::cover!(g == old_max + 1 && b == g + 3, "GAP of three changes right after the received prefix");
+    kani::cover!(g < old_max && b - 1 > old_max, "GAP overlapping the received prefix");
+    kani::cover!(b == g, "empty GAP range");
+}
+
+// @check props=C01 tier=quick known=KF-C01-2
+// @desc Reader GAP step, GAP beyond the next expected change (expected to FAIL, recorded finding KF-C01-2): gapStart > available_changes_max+1, i.e. at least one change before the gap is still missing (its DATA was lost or is overtaken by the GAP datagram). available_changes_max must not move; the real irrelevant_change_set raises the single watermark highest_received_change_sn to the end of the gap, so every missing change below the gap is silently treated as received: it is acknowledged (ACKNACK base jumps past it), never requested, and a later DATA for it is rejected as old.
+// @bounds proxy state symbolic with sequence numbers <= 1000, GAP range of 1..=3 sequence numbers, empty bitmap; unwind 6
+// @assume trigger of KF-C01-2: gapStart > available_changes_max + 1 and a non-empty gap range
+// @enc rtps::writer_proxy::RtpsWriterProxy::irrelevant_change_set
+#[kani::proof]
+#[kani::unwind(6)]
+fn c01_reader_gap_step__known() {
+    let (old_max, g, _b) = gap_step(false);
+    kani::cover!(g == old_max + 2, "exactly one change missing before the gap");
+}
+
 /// ACKNACK wire layout (RTPS 9.4.5.2), offsets from the submessage header:
 /// readerId 4, writerId 8, readerSNState.base 12, numBits 20, bitmap 24.., count after the bitmap.
 const AN_READER: usize = 4;
@@ -249,7 +311,7 @@ fn c01_reader_heartbeat_acknack() {
 /// Reader request step with ONE buffered fragment (fragment 1 of a 2-fragment sample `sn_f`).
 /// `stale_only` restricts to the scenario of the repaired defect (fix 1d5179c): sn_f stopped being
 /// missing (GAP / HEARTBEAT.firstSN moved past it) while changes are missing.
-fn acknack_with_fragment(stale_only: bool) -> (u32, bool, bool) {
+fn acknack_with_fragment(gapped: bool, stale_only: bool) -> (u32, bool) {
     let mut wp = s::new_proxy(ReliabilityKind::Reliable);
     let first0: i64 = kani::any();
     let highest: i64 = kani::any();
@@ -263,7 +325,6 @@ fn acknack_with_fragment(stale_only: bool) -> (u32, bool, bool) {
     let frag = c.as_data_frag_submessage(s::R_ID, s::W_ID, 2, 0);
     wp.push_data_frag(frag);
     // afterwards the sample may be declared irrelevant by a GAP (glue_gap_proxy's call) ...
-    let gapped: bool = kani::any();
     if gapped {
         wp.irrelevant_change_set(sn_f);
     }
@@ -275,12 +336,14 @@ fn acknack_with_fragment(stale_only: bool) -> (u32, bool, bool) {
     let count: i32 = kani::any();
     kani::assume(first >= first0 && first <= 1000 && last >= first - 1 && last <= 1000);
     let first_missing = core::cmp::max(first, highest + 1);
-    kani::assume(last >= first_missing - 1 && last - first_missing < 3);
+    kani::assume(last >= first_missing - 1 && last - first_missing < 2);
     let n_missing: u32 = (last - first_missing + 1) as u32;
     let stale = sn_f < first_missing;
     let partial = sn_f >= first_missing && sn_f <= last;
     if stale_only {
         kani::assume(stale && n_missing >= 1);
+    } else {
+        kani::assume(!stale);
     }
     let hb = HeartbeatSubmessage::new(false, false, s::R_ID, s::W_ID, first, last, count);
     kani::assume(count > 0);
@@ -314,54 +377,68 @@ fn acknack_with_fragment(stale_only: bool) -> (u32, bool, bool) {
     }
     core::mem::forget(wp);
     core::mem::forget(c);
-    (n_missing, gapped, partial)
+    (n_missing, partial)
 }
 
 // @check props=C01 tier=quick
-// @desc Reader request step after a buffered fragment became stale (scenario of the defect repaired by fix 1d5179c): the reader buffered fragment 1 of sample sn_f, then sn_f stopped being missing - a GAP declared it irrelevant or HEARTBEAT.firstSN moved past it (e.g. lifespan expiry on the writer). The next ACKNACK names EVERY missing sequence number and carries no NACK_FRAG: the stale fragment does not hide the missing changes from the writer.
-// @bounds state symbolic with sequence numbers <= 1000, 1..=3 missing changes, one stale fragment; unwind 6
-// @assume pre-state restricted to: the buffered fragment's sequence number is below max(first_available, highest_received+1) after the GAP/HEARTBEAT, and changes are missing
+// @desc Reader request step after a buffered fragment became stale because HEARTBEAT.firstSN moved past its sample (scenario of the defect repaired by fix 1d5179c, e.g. lifespan expiry on the writer): the reader buffered fragment 1 of sample sn_f, then a HEARTBEAT with firstSN > sn_f arrives while changes are missing. The ACKNACK names EVERY missing sequence number and carries no NACK_FRAG: the stale fragment does not hide the missing changes from the writer.
+// @bounds state symbolic with sequence numbers <= 1000, 1..=2 missing changes, one stale fragment; unwind 4
+// @assume pre-state restricted to: HEARTBEAT.firstSN is above the buffered fragment's sequence number and changes are missing
 // @assume datagram container stubbed by support_rtps::from_submessages_staged; critical-section stubs
 // @enc rtps::writer_proxy::RtpsWriterProxy::write_message
 // @enc rtps::writer_proxy::RtpsWriterProxy::lost_changes_update
-// @enc rtps::writer_proxy::RtpsWriterProxy::irrelevant_change_set
 #[kani::proof]
-#[kani::unwind(6)]
+#[kani::unwind(4)]
 #[kani::stub(crate::rtps_messages::overall_structure::RtpsMessageWrite::from_submessages, super::support_rtps::from_submessages_staged)]
 #[kani::stub(critical_section::acquire, super::support_cs::cs_acquire)]
 #[kani::stub(critical_section::release, super::support_cs::cs_release)]
-fn c01_acknack_after_stale_fragment() {
-    let (n_missing, gapped, _partial) = acknack_with_fragment(true);
-    kani::cover!(n_missing == 2 && gapped, "two changes missing, fragment of a GAPped sample was buffered");
-    kani::cover!(n_missing == 1 && !gapped, "one change missing, fragment of a lost (firstSN moved) sample was buffered");
+fn c01_acknack_after_lost_fragment() {
+    let (n_missing, _partial) = acknack_with_fragment(false, true);
+    kani::cover!(n_missing == 2, "two changes missing, fragment of a lost (firstSN moved) sample was buffered");
+    kani::cover!(n_missing == 1, "one change missing");
+}
+
+// @check props=C01 tier=thorough
+// @desc Reader request step after a buffered fragment became stale because a GAP declared its sample irrelevant (second scenario of the defect repaired by fix 1d5179c): the ACKNACK answering the next HEARTBEAT names every missing sequence number and carries no NACK_FRAG.
+// @bounds state symbolic with sequence numbers <= 1000, 1..=2 missing changes, one fragment of a GAPped sample; unwind 4
+// @assume datagram container stubbed by support_rtps::from_submessages_staged; critical-section stubs
+// @enc rtps::writer_proxy::RtpsWriterProxy::write_message
+// @enc rtps::writer_proxy::RtpsWriterProxy::irrelevant_change_set
+#[kani::proof]
+#[kani::unwind(4)]
+#[kani::stub(crate::rtps_messages::overall_structure::RtpsMessageWrite::from_submessages, super::support_rtps::from_submessages_staged)]
+#[kani::stub(critical_section::acquire, super::support_cs::cs_acquire)]
+#[kani::stub(critical_section::release, super::support_cs::cs_release)]
+fn c01_acknack_after_gapped_fragment() {
+    let (n_missing, _partial) = acknack_with_fragment(true, true);
+    kani::cover!(n_missing == 2, "two changes missing, fragment of a GAPped sample was buffered");
 }
 
 // @check props=C01,C05 tier=quick
-// @desc Reader request step with a buffered fragment, every case: fragment 1 of 2 of sample sn_f is buffered, optionally sn_f is then GAPped, a non-final HEARTBEAT arrives. The ACKNACK has base = available_changes_max+1 and names exactly the missing sequence numbers below a partially received sample (all missing ones if the fragment's sample is not missing any more); if sn_f is announced missing the datagram carries a third submessage NACK_FRAG(writerSN = sn_f) whose fragment set is exactly the missing fragment numbers in RTPS 1-based numbering ({2}) and whose count is greater than 0 (the writer accepts only count > last seen, initially 0); otherwise there is no NACK_FRAG.
-// @bounds state symbolic with sequence numbers <= 1000, 0..=3 missing changes, one buffered fragment of a 3-byte/2-fragment sample; unwind 6
+// @desc Reader request step with a live buffered fragment: fragment 1 of 2 of the next expected sample sn_f is buffered, a non-final HEARTBEAT with firstSN <= sn_f arrives. The ACKNACK has base = available_changes_max+1 and names exactly the missing sequence numbers below the partially received sample; if sn_f is announced missing the datagram carries a third submessage NACK_FRAG(writerSN = sn_f) whose fragment set is exactly the missing fragment numbers in RTPS 1-based numbering ({2}) and whose count is greater than 0 (the writer accepts only count > last seen, initially 0); if sn_f is beyond lastSN there is no NACK_FRAG.
+// @bounds state symbolic with sequence numbers <= 1000, 0..=2 missing changes, one buffered fragment of a 3-byte/2-fragment sample; unwind 4
 // @assume a reliable reader buffers a fragment only for the sequence number it expects when the fragment arrives (on_data_frag_submessage)
 // @assume datagram container stubbed by support_rtps::from_submessages_staged; critical-section stubs
 // @enc rtps::writer_proxy::RtpsWriterProxy::write_message
 // @enc rtps_messages::submessages::nack_frag::NackFragSubmessage::write_submessage_elements_into_bytes
 #[kani::proof]
-#[kani::unwind(6)]
+#[kani::unwind(4)]
 #[kani::stub(crate::rtps_messages::overall_structure::RtpsMessageWrite::from_submessages, super::support_rtps::from_submessages_staged)]
 #[kani::stub(critical_section::acquire, super::support_cs::cs_acquire)]
 #[kani::stub(critical_section::release, super::support_cs::cs_release)]
 fn c01_acknack_with_fragment() {
-    let (n_missing, gapped, partial) = acknack_with_fragment(false);
-    kani::cover!(partial && n_missing == 3, "partially received sample followed by two missing changes: NACK_FRAG emitted");
-    kani::cover!(!partial && n_missing == 0 && !gapped, "fragment of a not yet announced sample: no NACK_FRAG");
-    kani::cover!(!partial && gapped && n_missing == 2, "fragment's sample GAPped: full ACKNACK set, no NACK_FRAG");
+    let (n_missing, partial) = acknack_with_fragment(false, false);
+    kani::cover!(partial && n_missing == 2, "partially received sample followed by a missing change: NACK_FRAG emitted");
+    kani::cover!(!partial && n_missing == 0, "fragment of a not yet announced sample: no NACK_FRAG");
 }
 
 // @check props=C05 tier=thorough
 // @desc NACK_FRAG duplicate filter over two rounds: a reader holding fragment 1 of 2 of the missing sample answers two successive fresh HEARTBEATs; both answers carry a NACK_FRAG for that sample and the second NACK_FRAG count is strictly greater than the first, which is greater than 0 - so a writer that saw the first accepts the second (on_nack_frag_submessage_received: count > last_received_nack_frag_count).
-// @bounds proxy state symbolic with sequence numbers <= 1000, the sample with the buffered fragment is the only missing one; unwind 6
+// @bounds proxy state symbolic with sequence numbers <= 1000, the sample with the buffered fragment is the only missing one; unwind 4
 // @assume datagram container stubbed by support_rtps::from_submessages_staged; critical-section stubs
 // @enc rtps::writer_proxy::RtpsWriterProxy::write_message
 #[kani::proof]
-#[kani::unwind(6)]
+#[kani::unwind(4)]
 #[kani::stub(crate::rtps_messages::overall_structure::RtpsMessageWrite::from_submessages, super::support_rtps::from_submessages_staged)]
 #[kani::stub(critical_section::acquire, super::support_cs::cs_acquire)]
 #[kani::stub(critical_section::release, super::support_cs::cs_release)]
